@@ -5,6 +5,8 @@ import (
 	"flag"
 	"fmt"
 	"os"
+	"strings"
+	"runtime/debug"
 )
 
 func usage() {
@@ -18,6 +20,7 @@ func main() {
 	}
 	switch os.Args[1] {
 	case "exec":
+		debug.SetMaxStack(64 << 20) // unbounded recursion of the library ends the worker quickly
 		fs := flag.NewFlagSet("exec", flag.ExitOnError)
 		fs.Parse(os.Args[2:])
 		in := bufio.NewReaderSize(os.Stdin, 1<<20)
@@ -27,6 +30,9 @@ func main() {
 		sc := bufio.NewScanner(in)
 		sc.Buffer(make([]byte, 1<<20), 1<<26)
 		for sc.Scan() {
+			if strings.HasPrefix(sc.Text(), "URI ") || strings.HasPrefix(sc.Text(), "CL ") {
+				out.Flush() // the library may take the whole process down: keep what was answered so far
+			}
 			res := ex.run(sc.Text())
 			out.WriteString(res)
 			out.WriteByte('\n')
